@@ -251,5 +251,5 @@ func TestC19(t *testing.T) {
 		return
 	}
 	r.CheckKnown(parts)
-	r.Rapid("histories", r.N(8000, 150000), c19Prop)
+	r.Rapid("histories", r.N(8000, 600000), c19Prop)
 }
